@@ -852,3 +852,29 @@ def replay_glue(obj, binary, wd):
         diff = sorted(str(k) for k in set(fa) | set(fb) if fa.get(k) != fb.get(k))
         print(json.dumps({"panic": out.get("panic"), "views_that_differ": diff}, indent=1))
     return True
+
+
+def burst_race_probe(pid, wd, rng, n):
+    """the receive-loop histories once more in a race-detector build: reading the next datagram while the previous
+    one is still being handled (or any other unsynchronised access on that path) is reported by the detector even
+    when the outcome happens to be right. returns (violations, coverage)"""
+    binary = build_harness("pkg/gossip", race=True, dirs=["gossip"])
+    cases = [gen_burst_case(rng, "rburst%d" % i) for i in range(n)]
+    out, logtxt = run_harness(binary, {"mode": "world", "cases": cases}, wd, tag="rburst", timeout=900)
+    viol = []
+    if out is None:
+        m = re.search(r"WARNING: DATA RACE.*?(?:={18}|\Z)", logtxt, flags=re.S)
+        why = ("data race reported by the race detector on the receive path: " + " | ".join(
+            l.strip() for l in m.group(0).splitlines() if "andydunstall/piko" in l or "by goroutine" in l)[:900]) if m \
+            else "the race-detector build of the receive-loop histories died: " + logtxt[-600:]
+        viol.append({"what": "%s receive-loop probe (-race): %s" % (pid, why), "found_input": True,
+                     "replay_obj": {"property": pid, "kind": "burst-race", "signature": "burst-race", "why": why, "case": cases[0], "cases": cases,
+                                    "log": logtxt[-4000:]}})
+    else:
+        for c, o in zip(cases, out["cases"]):
+            if o.get("panic"):
+                viol.append({"what": "%s receive-loop probe (-race): %s" % (pid, o["panic"]), "found_input": True,
+                             "replay_obj": {"property": pid, "kind": "burst-race", "signature": "burst-race", "why": o["panic"], "case": c, "cases": [c]}})
+                break
+    return viol, {"histories": len(cases), "race_build": True,
+                  "bursts": sum(1 for c in cases for op in c["ops"] if op["op"] == "serve_burst")}
